@@ -107,10 +107,21 @@ NAN_LEAF = ("NANLEAF",)
 def is_nan_tf(v):
     return tag(v) == "agg" and len(v[2]) == 2 and tag(v[2][0]) == "const" and v[2][0][1] == "f64" and D.f64v(v[2][0]) != D.f64v(v[2][0])
 
+def is_invalid_tf(v):
+    """a TwoFloat constant whose high word is NaN or infinite: not a valid value (the properties' "invalid" result)"""
+    if tag(v) == "agg" and len(v[2]) == 2 and tag(v[2][0]) == "const" and v[2][0][1] == "f64":
+        h = D.f64v(v[2][0])
+        return h != h or h in (float("inf"), float("-inf"))
+    return False
+
+STRICT_NAN_LEAF = ("STRICTNANLEAF",)
+
 def leaf_eq_nan(l1, l2):
-    """leaf equality where NAN_LEAF matches any TwoFloat constant with a NaN high word"""
-    if l2 == NAN_LEAF:
-        return l1[0] == "leaf" and is_nan_tf(l1[1])
-    if l1 == NAN_LEAF:
-        return l2[0] == "leaf" and is_nan_tf(l2[1])
+    """leaf equality where NAN_LEAF ("an invalid result") matches any TwoFloat constant with a non-finite high word, and
+    STRICT_NAN_LEAF (where a property says NaN) any with a NaN high word"""
+    for a, b in ((l1, l2), (l2, l1)):
+        if b == NAN_LEAF:
+            return a == NAN_LEAF or (a[0] == "leaf" and is_invalid_tf(a[1]))
+        if b == STRICT_NAN_LEAF:
+            return a == STRICT_NAN_LEAF or (a[0] == "leaf" and is_nan_tf(a[1]))
     return l1 == l2
